@@ -26,7 +26,8 @@ type Frame struct {
 	caller           *Frame
 	fn               *ssa.Function
 	block, prevBlock *ssa.BasicBlock
-	env              map[ssa.Value]Value
+	env              []Value
+	idx              map[ssa.Value]int
 	locals           []Value
 	defers           *deferred
 	result           Value
@@ -54,8 +55,10 @@ func (fr *Frame) get(key ssa.Value) Value {
 	case *ssa.Global:
 		return PtrV{cell: fr.e.globalCell(key)}
 	}
-	if r, ok := fr.env[key]; ok {
-		return r
+	if i, ok := fr.idx[key]; ok {
+		if r := fr.env[i]; r != nil {
+			return r
+		}
 	}
 	panic(fmt.Sprintf("get: no value for %T: %v in %v", key, key.Name(), fr.fn))
 }
@@ -288,25 +291,26 @@ func (e *Exec) callSSA(caller *Frame, fn *ssa.Function, args []Value, env []Valu
 		panic(abortf("unwind", "call depth exceeded in %s", fn))
 	}
 	defer func() { e.callDepth-- }()
-	if fn.Pkg != nil && e.P.isRepoPkg(fn.Pkg) {
-		name := fn.String()
-		if !e.funcsSeen[name] {
-			e.funcsSeen[name] = true
+	if !e.fnSeen[fn] {
+		e.fnSeen[fn] = true
+		if fn.Pkg != nil && e.P.isRepoPkg(fn.Pkg) {
+			e.funcsSeen[fn.String()] = true
 		}
 	}
 	fr := &Frame{e: e, caller: caller, fn: fn}
-	fr.env = make(map[ssa.Value]Value, 32)
+	fr.idx = e.P.valueIndex(fn)
+	fr.env = make([]Value, len(fr.idx))
 	fr.block = fn.Blocks[0]
 	fr.locals = make([]Value, len(fn.Locals))
 	for i, l := range fn.Locals {
 		fr.locals[i] = e.zero(l.Type().(*types.Pointer).Elem())
-		fr.env[l] = PtrV{cell: &fr.locals[i]}
+		fr.env[fr.idx[l]] = PtrV{cell: &fr.locals[i]}
 	}
 	for i, p := range fn.Params {
-		fr.env[p] = args[i]
+		fr.env[fr.idx[p]] = args[i]
 	}
 	for i, fv := range fn.FreeVars {
-		fr.env[fv] = env[i]
+		fr.env[fr.idx[fv]] = env[i]
 	}
 	savedFn, savedInstr := e.curFn, e.curInstr
 	e.curFn = fn
@@ -392,7 +396,7 @@ func (fr *Frame) executePhis() []ssa.Instruction {
 			fr.phitemps = append(fr.phitemps, fr.get(phi.(*ssa.Phi).Edges[predIndex]))
 		}
 		for i, phi := range phis {
-			fr.env[phi.(*ssa.Phi)] = fr.phitemps[i]
+			fr.env[fr.idx[phi.(*ssa.Phi)]] = fr.phitemps[i]
 		}
 	}
 	return nonPhis
@@ -449,30 +453,30 @@ func (fr *Frame) visit(instr ssa.Instruction) int {
 	switch instr := instr.(type) {
 	case *ssa.DebugRef:
 	case *ssa.UnOp:
-		fr.env[instr] = e.unop(instr, fr.get(instr.X))
+		fr.env[fr.idx[instr]] = e.unop(instr, fr.get(instr.X))
 	case *ssa.BinOp:
-		fr.env[instr] = e.binop(instr.Op, instr.X.Type(), fr.get(instr.X), fr.get(instr.Y))
+		fr.env[fr.idx[instr]] = e.binop(instr.Op, instr.X.Type(), fr.get(instr.X), fr.get(instr.Y))
 	case *ssa.Call:
 		fn, args := fr.prepareCall(&instr.Call)
 		if fn == nil {
-			fr.env[instr] = fr.zeroOf(instr.Type())
+			fr.env[fr.idx[instr]] = fr.zeroOf(instr.Type())
 		} else {
-			fr.env[instr] = e.call(fr, fn, args)
+			fr.env[fr.idx[instr]] = e.call(fr, fn, args)
 		}
 	case *ssa.ChangeInterface:
-		fr.env[instr] = fr.get(instr.X)
+		fr.env[fr.idx[instr]] = fr.get(instr.X)
 	case *ssa.ChangeType:
-		fr.env[instr] = fr.get(instr.X)
+		fr.env[fr.idx[instr]] = fr.get(instr.X)
 	case *ssa.Convert:
-		fr.env[instr] = e.conv(instr.Type(), instr.X.Type(), fr.get(instr.X))
+		fr.env[fr.idx[instr]] = e.conv(instr.Type(), instr.X.Type(), fr.get(instr.X))
 	case *ssa.SliceToArrayPointer:
-		fr.env[instr] = e.sliceToArrayPointer(instr.Type(), fr.get(instr.X).(SliceV))
+		fr.env[fr.idx[instr]] = e.sliceToArrayPointer(instr.Type(), fr.get(instr.X).(SliceV))
 	case *ssa.MakeInterface:
-		fr.env[instr] = IfaceV{t: instr.X.Type(), v: fr.get(instr.X)}
+		fr.env[fr.idx[instr]] = IfaceV{t: instr.X.Type(), v: fr.get(instr.X)}
 	case *ssa.Extract:
-		fr.env[instr] = fr.get(instr.Tuple).(TupleV)[instr.Index]
+		fr.env[fr.idx[instr]] = fr.get(instr.Tuple).(TupleV)[instr.Index]
 	case *ssa.Slice:
-		fr.env[instr] = e.sliceOp(instr, fr.get(instr.X), fr.intArgV(instr.Low), fr.intArgV(instr.High), fr.intArgV(instr.Max))
+		fr.env[fr.idx[instr]] = e.sliceOp(instr, fr.get(instr.X), fr.intArgV(instr.Low), fr.intArgV(instr.High), fr.intArgV(instr.Max))
 	case *ssa.Return:
 		switch len(instr.Results) {
 		case 0:
@@ -517,15 +521,15 @@ func (fr *Frame) visit(instr ssa.Instruction) int {
 	case *ssa.MakeChan:
 		n := e.ConcInt(fr.intArg(instr.Size))
 		e.nextObj++
-		fr.env[instr] = &ChanObj{cap: int(n), id: e.nextObj, et: instr.Type().Underlying().(*types.Chan).Elem()}
+		fr.env[fr.idx[instr]] = &ChanObj{cap: int(n), id: e.nextObj, et: instr.Type().Underlying().(*types.Chan).Elem()}
 	case *ssa.Alloc:
 		T := instr.Type().(*types.Pointer).Elem()
 		if instr.Heap {
 			cell := new(Value)
 			*cell = e.zero(T)
-			fr.env[instr] = PtrV{cell: cell}
+			fr.env[fr.idx[instr]] = PtrV{cell: cell}
 		} else {
-			p := fr.env[instr].(PtrV)
+			p := fr.env[fr.idx[instr]].(PtrV)
 			*p.cell = e.zero(T)
 		}
 	case *ssa.MakeSlice:
@@ -542,15 +546,15 @@ func (fr *Frame) visit(instr ssa.Instruction) int {
 		for i := range b.cells {
 			b.cells[i] = e.zero(tElt)
 		}
-		fr.env[instr] = SliceV{b: b, off: e.i64(0), n: e.i64(n), cap: e.i64(c)}
+		fr.env[fr.idx[instr]] = SliceV{b: b, off: e.i64(0), n: e.i64(n), cap: e.i64(c)}
 	case *ssa.MakeMap:
 		mt := instr.Type().Underlying().(*types.Map)
 		e.nextObj++
-		fr.env[instr] = &MapObj{kt: mt.Key(), vt: mt.Elem(), id: e.nextObj}
+		fr.env[fr.idx[instr]] = &MapObj{kt: mt.Key(), vt: mt.Elem(), id: e.nextObj}
 	case *ssa.Range:
-		fr.env[instr] = e.rangeIter(fr.get(instr.X), instr.X.Type())
+		fr.env[fr.idx[instr]] = e.rangeIter(fr.get(instr.X), instr.X.Type())
 	case *ssa.Next:
-		fr.env[instr] = e.iterNext(fr.get(instr.Iter).(*IterV), instr)
+		fr.env[fr.idx[instr]] = e.iterNext(fr.get(instr.Iter).(*IterV), instr)
 	case *ssa.FieldAddr:
 		p := fr.get(instr.X).(PtrV)
 		if p.cell == nil {
@@ -565,27 +569,27 @@ func (fr *Frame) visit(instr ssa.Instruction) int {
 		if !ok {
 			e.unsupported("FieldAddr on %T", *p.cell)
 		}
-		fr.env[instr] = PtrV{cell: &st[instr.Field]}
+		fr.env[fr.idx[instr]] = PtrV{cell: &st[instr.Field]}
 	case *ssa.Field:
-		fr.env[instr] = fr.get(instr.X).(StructV)[instr.Field]
+		fr.env[fr.idx[instr]] = fr.get(instr.X).(StructV)[instr.Field]
 	case *ssa.IndexAddr:
-		fr.env[instr] = e.indexAddr(fr.get(instr.X), fr.intArg(instr.Index), instr.X.Type())
+		fr.env[fr.idx[instr]] = e.indexAddr(fr.get(instr.X), fr.intArg(instr.Index), instr.X.Type())
 	case *ssa.Index:
-		fr.env[instr] = e.indexOp(fr.get(instr.X), fr.intArg(instr.Index), instr.X.Type())
+		fr.env[fr.idx[instr]] = e.indexOp(fr.get(instr.X), fr.intArg(instr.Index), instr.X.Type())
 	case *ssa.Lookup:
-		fr.env[instr] = e.lookup(instr, fr.get(instr.X), fr.get(instr.Index))
+		fr.env[fr.idx[instr]] = e.lookup(instr, fr.get(instr.X), fr.get(instr.Index))
 	case *ssa.MapUpdate:
 		e.mapUpdate(fr.get(instr.Map).(*MapObj), fr.get(instr.Key), fr.get(instr.Value))
 	case *ssa.TypeAssert:
-		fr.env[instr] = e.typeAssert(instr, fr.get(instr.X).(IfaceV))
+		fr.env[fr.idx[instr]] = e.typeAssert(instr, fr.get(instr.X).(IfaceV))
 	case *ssa.MakeClosure:
 		var bindings []Value
 		for _, b := range instr.Bindings {
 			bindings = append(bindings, fr.get(b))
 		}
-		fr.env[instr] = &Closure{instr.Fn.(*ssa.Function), bindings}
+		fr.env[fr.idx[instr]] = &Closure{instr.Fn.(*ssa.Function), bindings}
 	case *ssa.Select:
-		fr.env[instr] = e.selectOp(fr, instr)
+		fr.env[fr.idx[instr]] = e.selectOp(fr, instr)
 	default:
 		e.unsupported("instruction %T", instr)
 	}
